@@ -769,5 +769,55 @@ theorem forward_selected_out_keys (ms : List Mod) (S : List Key) (arg r : Env) (
     rw [updKeys_flat arg r (S ++ arg.map (·.1)) ha hf hnd hflatK t]
     simp only [List.mem_append, hmemarg t]
 
+/-! ## the frame of a composite probabilistic module -/
 end TdVerif.Props.C14
 
+namespace TdVerif.Props.C14
+open TdVerif.C14.Prob
+
+/-- without aggregation the module writes exactly what it advertises -/
+theorem composite_per_key_frame (heads : List String) (lp : String) (k : String) :
+    k ∈ writtenKeys false heads lp ↔ k ∈ advertisedKeys false heads lp := by
+  simp [writtenKeys, advertisedKeys]
+
+/-- with aggregation everything advertised is written … -/
+theorem composite_aggregate_advertised_written (heads : List String) (lp : String) (k : String)
+    (h : k ∈ advertisedKeys true heads lp) : k ∈ writtenKeys true heads lp := by
+  simp only [advertisedKeys, writtenKeys, if_true, List.mem_append, List.mem_singleton] at h ⊢
+  rcases h with h | h
+  · exact Or.inl (Or.inl h)
+  · exact Or.inr h
+
+/-- **composite_aggregate_extra_entries_counterexample** (recorded finding `C14-composite-aggregate-per-head-entries`) — …
+but the per-head log-probs are written too, and they are not advertised: two heads `x`, `y` under
+`composite_lp_aggregate(True)` write `x_log_prob`, which is not one of the module's out_keys (14 `*_legacy` tests of the
+library assert these entries, so the behaviour is recorded, not repaired). -/
+theorem composite_aggregate_extra_entries_counterexample :
+    "x_log_prob" ∈ writtenKeys true ["x", "y"] "sample_log_prob" ∧
+    "x_log_prob" ∉ advertisedKeys true ["x", "y"] "sample_log_prob" := by
+  decide
+
+end TdVerif.Props.C14
+
+namespace TdVerif.Props.C14
+open TdVerif.C14
+
+/-! ## `tensordict_out` and nested out_keys (recorded finding) -/
+
+/-- **tensordict_out_nested_siblings_counterexample** (recorded finding `C14-tensordict-out-nested-siblings`) — a sequence of
+one module `('n','a') ↦ ('n','x')` called on `{('n','a'), ('n','b')}` with an empty `tensordict_out`: the destination
+receives the out_key `('n','x')` *and* the siblings `('n','a')`, `('n','b')` of the nested tensordict
+(`update(keys_to_update=[('n','x')])` copies the whole entry `n` when the destination has none; 12 cases of the library's
+`test_update_select` assert this, so it is recorded, not repaired). The flat-key theorem `forward_tensordict_out` is why the
+hypothesis `FlatKeys` is there. -/
+theorem tensordict_out_nested_siblings_counterexample :
+    (match fwdSeqOut false [.mod { m := { ins := [["n", "a"]], outs := [["n", "x"]], f := 0 } }] none false
+        [(["n", "a"], .input ["n", "a"]), (["n", "b"], .input ["n", "b"])] [] with
+     | .ok (_, out', _) => some (out'.map (·.1))
+     | .error _ => none)
+      = some [["n", "a"], ["n", "b"], ["n", "x"]] := by
+  simp [fwdSeqOut, fwdKids, fwdNode, fwdMod, skips, readArgs, writeOuts, applyHook, Exec.cur, Exec.after, Out.ret,
+    Node.ins, Node.outs, nodesInOut, addIns, dedupLast, updKeys, updAliases, topNames, isNodeAt, headIs, Env.get?,
+    Env.set, Env.has, sink]
+
+end TdVerif.Props.C14
